@@ -207,14 +207,17 @@ def gen_histories(tier):
               [['creq', 3, 'zz_a'], ['ment', 3], ['del', 3], ['creq', 3, 'wl_callback'], ['foreign', 3]]):
         yield {'history': h, 'variant': sv}
 
-    def rec(hist, d):
+    def rec(hist, d, variant=variant):
         yield {'history': [list(e) for e in hist], 'variant': variant}
         if d == 0:
             return
         ref = hc.ref_after(hist, variant)
         for ev in ot.enabled(ref, with_foreign=False):
-            yield from rec(hist + [ev], d - 1)
+            yield from rec(hist + [ev], d - 1, variant)
     yield from rec([], depth)
+    # every line carries the time stamp of the first one (a burst within one millisecond): whatever happens then happens
+    # at session time 0.0
+    yield from rec([], depth, hc.VARIANTS['client_equal_times'])
     # deep chains: labels past z and zz
     yield {'history': hc.deep_chain(variant, 28, 30), 'variant': variant}
     if tier == 'thorough':
